@@ -65,6 +65,10 @@ class Ctx:
                 bad.append((req, a, b))
         if bad:
             req, a, b = bad[0]
+            if not hasattr(self, "disagreements"):
+                self.disagreements = []
+            if len(self.disagreements) < 5:
+                self.disagreements.append({"stream": stream, "cfg": cfg, "request": req, "impl": a[:2000], "model": b[:2000]})
             self.note_broken("correspondence", stream or "stream",
                              "%d disagreement(s); first: request=%s impl=%s model=%s" % (len(bad), req[:200], a[:200], b[:200]))
         return res, bad
@@ -84,7 +88,7 @@ class Ctx:
 
     def violation(self, payload, found=True):
         payload = dict(payload, property=self.prop, seed=self.seed, tier=self.tier,
-                       broken=[b["kind"] + ":" + b["name"] for b in self.broken])
+                       broken=[b["kind"] + ":" + b["name"] for b in self.broken], disagreements=getattr(self, "disagreements", []))
         path = E.write_replay(self.prop, payload)
         line = "VIOLATION property=%s replay=%s" % (self.prop, path) + ("" if found else " no-failing-input-found")
         self.violations.append({"replay": path, "line": line})
@@ -185,6 +189,26 @@ def main(argv):
     if a.replay:
         payload = json.load(open(a.replay))
         prop = payload["property"]
+        if payload.get("kind") == "obligation" or payload.get("input") is None and "ops" not in payload and "history" not in payload and "requests" not in payload:
+            # a violation without a failing input names the theorem / correspondence that no longer checks: re-check exactly those
+            ctx = Ctx(prop, "quick", payload.get("seed", 0))
+            try:
+                prepare(ctx, props_json().get(prop, {}))
+            except E.Infra as e:
+                print("INFRASTRUCTURE FAILURE: %s" % e)
+                return 2
+            print("recorded as broken:", payload.get("broken"))
+            for b in payload.get("broken_detail", [])[:6]:
+                print("  %s %s: %s" % (b.get("kind"), b.get("name"), str(b.get("detail"))[:300]))
+            now = [b for b in ctx.broken if b["kind"] in ("translator", "obligation", "audit")]
+            print("broken now (translator / obligations / audit):", [b["kind"] + ":" + b["name"] for b in now] or "none")
+            still = 0
+            for dd in payload.get("disagreements", []):
+                r = E.run_pairs([dd["request"]], dd.get("cfg"))[0]
+                same = r[1] == r[2]
+                still += not same
+                print("correspondence %s: request %s… → implementation %s | model %s → %s" % (dd.get("stream"), dd["request"][:80], r[1][:120], r[2][:120], "agree now" if same else "STILL DISAGREE"))
+            return 1 if (now or still) else 0
         mod = importlib.import_module("props." + prop.lower())
         return mod.replay(payload)
     prop = a.prop
